@@ -712,7 +712,7 @@ PROPS["C07"] = {'claimed': True,
                'C07_slave_retry_detection (Slave.v: FCV=1 with the stored bit => stored response, state unchanged; otherwise processed and stored; '
                'FCV=0/FCB=1 resets), one-step C07_offline_reported, C07_reply_never_counts. The monitor DpOracle.c07_monitor (bound max_retry+16 '
                'completed cycles, class DpOracle.c07_known_f15) runs on every implementation transcript with a fault-free tail.',
- 'partial_gap': 'All planned C07 theorems are proved. Scope notes: (a) the joint system has ONE peripheral driven at the Peripheral level; the composition '
+ 'partial_gap': 'All planned C07 theorems are proved. Slaves that stay "station not ready" for more than 2 diagnostics polls after Chk_Cfg (ready delay 3..8 in the generated fault-free tails, with max_retry 1..3) are OUTSIDE theorem C07_recovery: they are covered by correspondence and by the executable monitors DpOracle.c07_monitor_slow (bound max_retry+16+2*delay cycles) and c07_no_offline_monitor (no Offline event for a healthy, answering station after the first max_retry+4 cycles of the tail) only. Scope notes: (a) the joint system has ONE peripheral driven at the Peripheral level; the composition '
                 'with DpMaster slot iteration / global-control telegrams for several peripherals is not part of C07_recovery (C14 covers the cycle '
                 'structure; the monitor checks the multi-peripheral case on implementation transcripts). (b) The bound max_retry + 11 is proved for slave '
                 'ready delays <= 2 diagnostics cycles (the generator range); larger delays lengthen recovery by the delay and are outside the theorem. '
@@ -840,7 +840,7 @@ PROPS["C14"] = {'claimed': True,
  'assumptions': ['histories = arbitrary callback lists; C14_contract_safe additionally assumes the FdlApplication contract (C15)',
                  'max_retry_limit >= 1 for C14_lifecycle (ParametersBuilder allows 1..15)',
                  'peripheral set fixed during a history; fresh peripherals (Peripheral::new) or any start state satisfying the stated invariant'],
- 'partial_gap': 'add() during a history is not covered (the peripheral set is fixed; the executable monitor marks such cycles and does not judge '
+ 'partial_gap': 'HighPrioOnly is varied per transmit call by the harness; the rule "a master that is not stopped returns None without cycle_completed and without a peripheral event only as the call that closes a cycle completed by the preceding reply" (DpOracle.c14_silent_none_monitor, oracle turn_skipped_on_high_prio) is monitored on the implementation, it is not part of Proofs/DpOracleSound.v. add() during a history is not covered (the peripheral set is fixed; the executable monitor marks such cycles and does not judge '
                 'them either). "Retransmission" is stated as: same frame count bit, same slot, at most 1+max_retry per turn - that the bytes repeat '
                 'is C08 (and not true of Data_Exchange when the user rewrites pi_q between retries). Freedom from the other panic sites (u8 index '
                 'for > 256 slots, Instant overflow, transmit buffer too small) is C05; theorems are stated up to a panic.'}
